@@ -11,6 +11,9 @@ def configs(ctx):
         dict(layout="dir", procs="P3", roles="RolesPPG", rolemap={"p1": "put", "p2": "put", "p3": "get"}, nfiles=1, faults=1, crashes=1, tampers=0),
         dict(layout="tar", procs="P2", roles="RolesPG", rolemap={"p1": "put", "p2": "get"}, nfiles=1, faults=1, crashes=1, tampers=1),
         dict(layout="tar", procs="P3", roles="RolesPPG", rolemap={"p1": "put", "p2": "put", "p3": "get"}, nfiles=1, faults=1, crashes=1, tampers=0),
+        # two storing processes and tampering: a later store must repair whatever the first one's entry was turned into
+        dict(layout="dir", procs="P2", roles="RolesPP", rolemap={"p1": "put", "p2": "put"}, nfiles=1, faults=0, crashes=1, tampers=1),
+        dict(layout="tar", procs="P2", roles="RolesPP", rolemap={"p1": "put", "p2": "put"}, nfiles=1, faults=0, crashes=1, tampers=1),
     ]
     if ctx.quick:
         return q
